@@ -1,5 +1,9 @@
 """C15 — an Ask returns its own reply or an error, and an in-time reply is never lost (E3 on PID.Ask / Response / pools / mailbox recycling)."""
 ID = "C15"
+import os
+# MODE: "asis" = PID.Ask as it is (late responseClosed.Store(true) after the select: findings C15-F1/F2);
+#       "fixed" = after fixes/C15-ask-no-late-store.diff (no atomic site after the select)
+MODE = os.environ.get("VERIF_C15_MODE", "asis")
 LEAN_MODULES = ["GoaktVerif.Props.C15"]
 THEOREMS = [
     "GoaktVerif.C15.C15_loss_witness",
@@ -28,11 +32,15 @@ INSTRUMENT_ARGS = {
     "internal/timer/timer.go": ["-entry", "Pool.Get"],
 }
 SITES = {
-    "actor/pid.go:PID.Ask": ["Store:responseClosed", "Store:responseClosed", "Store:responseClosed"],
     "actor/receive_context.go:ReceiveContext.Response": ["CAS:responseClosed"],
     "actor/receive_context.go:ReceiveContext.build": ["Store:responseClosed"],
     "internal/timer/timer.go:Pool.Get": ["Call:Get"],
 }
+if MODE == "asis":
+    SITES["actor/pid.go:PID.Ask"] = ["Store:responseClosed", "Store:responseClosed", "Store:responseClosed"]
+else:
+    # the repaired PID.Ask has no atomic site of its own (check.py cannot digest a file without sites)
+    INSTRUMENT = [f for f in INSTRUMENT if f != "actor/pid.go"]
 TIMEOUT = 900
 
 
@@ -56,7 +64,7 @@ def _case(rng, ncallers, maxasks, schedlen, timer_p):
         else:
             t = rng.choice(list(range(n)) + [n - 1])     # the worker a bit more often
             sched += [t] * rng.choice([1, 1, 2, 3])
-    return "ask | " + " ; ".join(" ".join(p) for p in progs) + " | " + " ".join(map(str, sched[:schedlen]))
+    return f"ask {MODE} | " + " ; ".join(" ".join(p) for p in progs) + " | " + " ".join(map(str, sched[:schedlen]))
 
 
 def gen_cases(rng, tier):
@@ -82,7 +90,7 @@ def _late_store_case(rng):
         sched += [2, 2, 1, 1, 1]
     pos = rng.randint(8, len(sched))
     sched = sched[:pos] + [0] + sched[pos:] + [rng.randrange(3) for _ in range(rng.randint(0, 6))]
-    return "ask | " + " ; ".join(" ".join(p) for p in progs) + " | " + " ".join(map(str, sched))
+    return f"ask {MODE} | " + " ; ".join(" ".join(p) for p in progs) + " | " + " ".join(map(str, sched))
 
 
 def search_cases(rng, tier):
@@ -105,6 +113,7 @@ def _judge(case, out):
     tr = op[0].split()[1:]
     if "cap" in tr:
         return "ok unfinished"
+    fixed = "fixed" in cp[0].split()
     st = [[0, 0] for _ in progs]
     select_at, resp_at = {}, {}
     for pos, e in enumerate(tr):
@@ -123,8 +132,11 @@ def _judge(case, out):
             if ph == 0:
                 st[tid][1] = 1
             elif ph == 1:
-                st[tid][1] = 2
                 select_at.setdefault(k, pos)
+                if fixed:
+                    st[tid] = [oi + 1, 0]
+                else:
+                    st[tid][1] = 2
             else:
                 st[tid] = [oi + 1, 0]
         else:
